@@ -17,10 +17,11 @@ PROOFS = {
             'InstantiatedGlobalFunction.to_cpp', 'InstantiatedConstructor.to_cpp', 'Typename.__init__', 'Class.namespaces',
             'ForwardDeclaration.namespaces', 'InstantiatedClass.cpp_typename', 'InstantiatedClass.to_cpp',
             'InstantiatedDeclaration.to_cpp'],
-    'C02': [],
+    'C02': ['instantiate_args_list', 'instantiate_return_type'],
     'C13': [],
     'C15': [],
 }
+MODULES_EXTRA = {'C02': ['contracts.parser']}
 CATS = {
     'C03': {'presence', 'readable'},
     'C04': {'forwarding'},
@@ -33,7 +34,7 @@ CATS = {
 def prove(rep, pid, args):
     keys = PROOFS[pid]
     if keys:
-        rep.run_proofs(keys, NAMES)
+        rep.run_proofs(keys, NAMES + MODULES_EXTRA.get(pid, []))
     pr = rep.classify(rebaseline=args.rebaseline)
     return pr
 
